@@ -96,10 +96,14 @@ def rule_hexrows(ctx, res, sizes):
     ok = 'bytes_to_hex(bytes(self._data[start_i:end_i]))' in src and \
         'range(0,len(self._data),self.HEX_LINE_LENGTH_BYTES)' in src and \
         "+b'\\n'" in src
-    res.check(ok, 'R-C16-hexrows', b.qual,
-              'writer: bytes in address order, hex, newline', '',
-              'BaseSection.to_lines no longer emits the region in address '
-              'order as hex', b.loc)
+    if not ok:
+        res.undecided('R-C16-hexrows', b.qual,
+                      'writer: bytes in address order, hex, newline',
+                      'BaseSection.to_lines is written in a form outside the '
+                      'model', b.loc)
+    else:
+        res.holds('R-C16-hexrows', b.qual,
+                  'writer: bytes in address order, hex, newline', '', b.loc)
     h = model.func('pico8.util:bytes_to_hex')
     fmt = [const_str(n.args[1]) for n in walk_own(h.node)
            if isinstance(n, ast.Call) and isinstance(n.func, ast.Name)
@@ -111,9 +115,15 @@ def rule_hexrows(ctx, res, sizes):
     src = ast.unparse(r.node).replace(' ', '')
     ok = 'bytearray.fromhex(' in src and 'line.rstrip()' in src and \
         "b''.join(" in src
-    res.check(ok, 'R-C16-hexrows', r.qual,
-              'reader: hex-decode each row, concatenate in order', '',
-              'BaseSection.from_lines changed', r.loc)
+    if not ok:
+        res.undecided('R-C16-hexrows', r.qual,
+                      'reader: hex-decode each row, concatenate in order',
+                      'BaseSection.from_lines is written in a form outside '
+                      'the model', r.loc)
+    else:
+        res.holds('R-C16-hexrows', r.qual,
+                  'reader: hex-decode each row, concatenate in order', '',
+                  r.loc)
 
 
 def expected_sfx_note_digits():
@@ -203,8 +213,12 @@ def rule_sfx(ctx, res, sizes):
               'note digits = pitch(2) waveform volume effect', '',
               'sfx note digits carry memory bits {}'.format(w['note']),
               f.loc)
+    if not w['tail_ok']:
+        res.undecided('R-C16-sfx', f.qual, 'line assembled from the digit '
+                      'buffer + newline', 'the yield of Sfx.to_lines is not '
+                      "b''.join(<buffer>) + b'\\n'", f.loc)
     res.check(w['patterns'] == (0, ref.SFX_PATTERNS, 1) and
-              w['notes'] == (0, ref.SFX_NOTES, 1) and w['tail_ok'] and
+              w['notes'] == (0, ref.SFX_NOTES, 1) and
               sizes.get('sfx') == ref.SFX_PATTERNS * ref.SFX_BYTES,
               'R-C16-sfx', f.qual, '64 patterns x 32 notes, 68-byte stride',
               '', 'pattern / note counts are {} / {}'.format(
